@@ -2,6 +2,7 @@
 C05 / C01 for `append (const small_vector&)` and `append (small_vector&&)` inside a system of containers.
 -/
 import SvModel.Proofs.AppendOther
+import SvModel.Proofs.AppendOtherMove
 import SvModel.Properties.Core
 
 namespace SvModel.C05
@@ -35,5 +36,31 @@ theorem strong_keeps_both (cfg : Cfg) (w w' : World α) (U A : List Nat) (c o : 
     (h : Strong w w') (xs ys : List (Val α)) (hx : Holds w c xs) (hy : Holds w o ys) :
     Holds w' c xs ∧ Holds w' o ys ∧ w'.hdr = w.hdr ∧ w'.live = w.live :=
   ⟨h.holds hs.ok.led (hs.ok.vec c hc) hx, h.holds hs.ok.led (hs.ok.vec o ho) hy, h.hdr, h.live⟩
+
+/-- `c.append (std::move (o))` in its MOVING mode with a move constructor that cannot throw (`relocate_with_move` because
+    of nothrow move): on return `c` holds its values followed by `o`'s and `o` is empty; the only possible failures
+    (length_error, the allocator) happen before any element is touched, and the world — source included, nothing
+    moved-from — is as before -/
+theorem append_rvalue_moving_strong (cfg : Cfg) (w : World α) (U A : List Nat) (c o : Nat) (hs : SysAll cfg w U A)
+    (hc : c ∈ A) (ho : o ∈ A) (hoc : o ≠ c) (hmode : relocateWithMove cfg.policy = true)
+    (hreal : cfg.realMove = true) (hnt : cfg.tMove = false) :
+    (appendOtherMove cfg c o w).sat
+      (fun _ w' => SysAll cfg w' U A ∧ (∀ xs ys, Holds w c xs → Holds w o ys → Holds w' c (xs ++ ys)) ∧ Holds w' o [] ∧
+                   (∀ d ∈ A, d ≠ c → d ≠ o → ∀ xs, Holds w d xs → Holds w' d xs))
+      (fun _ w' => Strong w w') :=
+  SysAll.appendOtherMove_nothrow hs hc ho hoc hmode hreal hnt
+
+/-- … and for EVERY element type (copying or moving mode, throwing or not): the call keeps the system valid in both
+    outcomes — after a throw every header is as before (sizes, buffers, capacities), no block was leaked or gained, every
+    other container holds what it held; the two operands hold constructed elements (C06: for a move-only type whose move
+    throws, some of the source's elements are moved-from, none is lost or destroyed twice) -/
+theorem append_rvalue_basic (cfg : Cfg) (w : World α) (U A : List Nat) (c o : Nat) (hs : SysAll cfg w U A)
+    (hc : c ∈ A) (ho : o ∈ A) (hoc : o ≠ c) (hpol : StrongPolicy cfg) :
+    (appendOtherMove cfg c o w).sat
+      (fun _ w' => SysAll cfg w' U A ∧ (∀ xs ys, Holds w c xs → Holds w o ys → Holds w' c (xs ++ ys)) ∧ Holds w' o [] ∧
+                   (∀ d ∈ A, d ≠ c → d ≠ o → ∀ xs, Holds w d xs → Holds w' d xs))
+      (fun _ w' => SysAll cfg w' U A ∧ w'.hdr = w.hdr ∧ w'.live = w.live ∧
+                   (∀ d ∈ A, d ≠ c → d ≠ o → ∀ xs, Holds w d xs → Holds w' d xs)) :=
+  Res.sat_mono (SysAll.appendOtherMove hs hc ho hoc hpol) (fun _ _ h => h) (fun _ _ h => h.2)
 
 end SvModel.C05
